@@ -187,6 +187,64 @@ def peepL : List (Stmt F) → List (Stmt F)
     if s'.isEmptyBlock then peepL ss else s' :: peepL ss
 end
 
+/-! ### syntactic certificates -/
+
+/-- does the expression mention variable `x`? -/
+def Expr.mentions (x : String) : Expr F → Bool
+  | .var n => n == x
+  | .attr t _ => t.mentions x
+  | .idx t i => t.mentions x || i.mentions x
+  | .intLit _ => false
+  | .floatLit _ => false
+  | .boolLit _ => false
+  | .bin _ l r => l.mentions x || r.mentions x
+  | .b2i e => e.mentions x
+  | .alloc _ n => n.mentions x
+  | .realloc o _ n => o.mentions x || n.mentions x
+
+mutual
+/-- `x` is never read and never assigned except by its own initialised declaration(s) -/
+def Stmt.deadVar (x : String) : Stmt F → Bool
+  | .expr e => !e.mentions x
+  | .decl _ _ => true
+  | .assign t v => !t.mentions x && !v.mentions x
+  | .declAssign _ _ v => !v.mentions x
+  | .block ss _ => deadVarL x ss
+  | .branch c t f => !c.mentions x && t.deadVar x && f.deadVar x
+  | .loop c b => !c.mentions x && b.deadVar x
+  | .ret e => !e.mentions x
+def deadVarL (x : String) : List (Stmt F) → Bool
+  | [] => true
+  | s :: ss => s.deadVar x && deadVarL x ss
+end
+
+mutual
+/-- no allocation or reallocation occurs anywhere in the statement -/
+def Stmt.noAlloc : Stmt F → Bool
+  | .expr e => e.noAllocE
+  | .decl _ _ => true
+  | .assign t v => t.noAllocE && v.noAllocE
+  | .declAssign _ _ v => v.noAllocE
+  | .block ss _ => noAllocL ss
+  | .branch c t f => c.noAllocE && t.noAlloc && f.noAlloc
+  | .loop c b => c.noAllocE && b.noAlloc
+  | .ret e => e.noAllocE
+def noAllocL : List (Stmt F) → Bool
+  | [] => true
+  | s :: ss => s.noAlloc && noAllocL ss
+def Expr.noAllocE : Expr F → Bool
+  | .var _ => true
+  | .attr t _ => t.noAllocE
+  | .idx t i => t.noAllocE && i.noAllocE
+  | .intLit _ => true
+  | .floatLit _ => true
+  | .boolLit _ => true
+  | .bin _ l r => l.noAllocE && r.noAllocE
+  | .b2i e => e.noAllocE
+  | .alloc _ _ => false
+  | .realloc _ _ _ => false
+end
+
 def peepF (f : Func F) : Func F := { f with body := peepS f.body }
 def peepM (m : Module F) : Module F := ⟨m.defs.map peepF⟩
 
